@@ -41,6 +41,8 @@ Init == /\ \/ \E X \in Small : \E kn \in Kernels(Len(X[1]), Len(X)), mf \in Mean
                => pb.X = << <<0>>, <<1>> >> /\ pb.kern.k = "se" /\ pb.kern.ja = 0 /\ pb.mean.k = "const")
         /\ (pb.kern.k = "sum" /\ pb.kern.parts[1].k = "cp" /\ Len(pb.kern.parts[1].parts) = 3           \* three-kernel change-point: 32-bit limits
                => pb.X = << <<0>>, <<1>> >> /\ pb.mean.k # "quad" /\ pb.sig[1][1] = pb.sig[2][2])
+        /\ (pb.kern.k = "sum" /\ pb.kern.parts[1].k = "cp" /\ pb.kern.parts[1].axis # 1           \* change-point along the last axis: 32-bit limits
+               => pb.X = << <<0, 1>>, <<1, 0>> >>)
         /\ cx = FullContext(pb)
         /\ out = 0
 Q == Queries(Len(pb.X[1]))
